@@ -353,7 +353,27 @@ func ruleSandbox(c *Ctx) {
 }
 
 // mustStoreAtSuccess: interp fields definitely stored on every path to a `return ..., nil`.
+var mustStoreMemo = map[*ssa.Function]map[string]bool{}
+var mustStoreBusy = map[*ssa.Function]bool{}
+
+// mustStoreAtSuccess: the interp fields stored on every path of fn that returns normally (a nil error), counting
+// the stores of the functions of the package it calls on the way (their own success summaries). A call of a
+// local function g also yields the pseudo-fact "call:g".
 func mustStoreAtSuccess(fn *ssa.Function) map[string]bool {
+	if r, ok := mustStoreMemo[fn]; ok {
+		return copySet(r)
+	}
+	if mustStoreBusy[fn] {
+		return map[string]bool{}
+	}
+	mustStoreBusy[fn] = true
+	defer func() { delete(mustStoreBusy, fn) }()
+	res := mustStoreAtSuccess0(fn)
+	mustStoreMemo[fn] = res
+	return copySet(res)
+}
+
+func mustStoreAtSuccess0(fn *ssa.Function) map[string]bool {
 	out := mustStoreOut(fn)
 	var res map[string]bool
 	for _, b := range fn.Blocks {
@@ -387,6 +407,15 @@ func mustStoreOut(fn *ssa.Function) map[*ssa.BasicBlock]map[string]bool {
 		for _, in := range b.Instrs {
 			if name, _ := interpFieldStore(in); name != "" {
 				g[name] = true
+			}
+			// a function of the package called here: what it definitely stores when it succeeds
+			if call, ok := in.(*ssa.Call); ok {
+				if cal := call.Call.StaticCallee(); cal != nil && cal.Pkg == fn.Pkg && len(cal.Blocks) > 0 && cal != fn {
+					g["call:"+cal.Name()] = true
+					for k := range mustStoreAtSuccess(cal) {
+						g[k] = true
+					}
+				}
 			}
 			// clearing idioms handled by callers that need them (R-RESET uses its own AST pass)
 		}
